@@ -36,6 +36,31 @@ Proof.
     + unfold written. cbn [filter]. rewrite E. apply (IH k Hw Hn Hc).
 Qed.
 
+(* The steps that can REJECT a description: the stages of the generator (parse_config, every call on the network object,
+   the query handler) and the formatter.  A diagnostic call (print, logging) or a path operation does not reject a
+   description; C10 speaks about rejection, so the statement quantifies over these steps (a `--verbose` message between
+   the two writes is not a violation; an early write before render_network is). *)
+Definition rejecting (s : step) : bool :=
+  is_call s && (String.prefix "network." (fst (snd s)) ||
+                existsb (str_eqb (fst (snd s))) ["parse_config"; "handle_query"; "verible_format"; "render_sources"; "parse_args"]).
+Fixpoint writes_after_stages (steps : list step) : bool :=
+  match steps with
+  | [] => true
+  | s :: rest => if is_write s then forallb (fun t => negb (rejecting t)) rest else writes_after_stages rest
+  end.
+Theorem no_output_on_rejection steps k s :
+  writes_after_stages steps = true -> nth_error steps k = Some s -> rejecting s = true ->
+  written_if_fails_at steps k = [].
+Proof.
+  unfold written_if_fails_at. revert k. induction steps as [|t r IH]; intros k Hw Hn Hc.
+  - destruct k; discriminate.
+  - destruct k as [|k]; [reflexivity|]. cbn [nth_error] in Hn. cbn [firstn writes_after_stages] in *.
+    destruct (is_write t) eqn:E.
+    + exfalso. rewrite forallb_forall in Hw. apply nth_error_In in Hn. specialize (Hw s Hn).
+      rewrite Hc in Hw. discriminate.
+    + unfold written. cbn [filter]. rewrite E. apply (IH k Hw Hn Hc).
+Qed.
+
 (* ---------------------------------------------------------------- C15: modes are views of one result *)
 (* what a run emits, in order: (channel, content variable); channel = file variable or "stdout" *)
 Definition outputs (steps : list step) : list (string * string) :=
